@@ -77,7 +77,24 @@ def main():
 
     run = Run(prop, args.tier, seed, mod.LEVEL)
     run.nproc = args.nproc
-    return mod.main(run)
+    try:
+        return mod.main(run)
+    except Exception:
+        # The library failed inside the harness in a way no per-case oracle caught (e.g. an exception escaping
+        # from a fixture call).  On the unchanged tree this never happens; on a changed tree it is a finding.
+        import time
+        import traceback
+
+        tb = traceback.format_exc()
+        rdir = os.path.join(os.path.dirname(os.path.dirname(os.path.abspath(__file__))), "replays", prop)
+        os.makedirs(rdir, exist_ok=True)
+        path = os.path.join(rdir, "crash_%d.json" % int(time.time()))
+        with open(path, "w", encoding="utf-8") as f:
+            json.dump({"property": prop, "oracle": "check_completes", "tier": args.tier, "case": {"traceback": tb}}, f, indent=1)
+        print(tb)
+        print("VIOLATION property=%s replay=%s" % (prop, path))
+        print("  oracle=check_completes: the exploration aborted with an exception raised from the code under test")
+        return 1
 
 
 if __name__ == "__main__":
